@@ -376,6 +376,98 @@ func TestC05(t *testing.T) {
 		checkStream(c, ctx, msgs, cuts, trunc, "random")
 	})
 
+	// 1c. the message after an undecodable one: messages whose declared length is right but
+	//     whose body cannot be decoded (an AVP length beyond the body, below the AVP header,
+	//     or a truncated vendor field) sit between well-formed ones; a reader that goes on
+	//     after the error finds every following message whole, at its own offset
+	rec.Suite("after-an-undecodable-message", rec.N(1500, 100000), func(c *ev.Case) {
+		r := c.R
+		sig := func(op string) ev.Sig { return ev.Sig{"op": op, "suite": "after-an-undecodable-message"} }
+		nm := 2 + r.IntN(7)
+		var msgs [][]byte
+		var bad []bool
+		kinds := ""
+		for i := 0; i < nm; i++ {
+			m := seqMsg(uint32(c.I*16+i+1), bodySize(r, r.IntN(2) == 0))
+			isBad := i < nm-1 && r.IntN(3) == 0 && len(m) >= 32
+			if isBad {
+				m = append([]byte(nil), m...)
+				k := r.IntN(4)
+				switch k {
+				case 0: // the first AVP claims more than the body holds
+					n := len(m) - 20 + 4 + r.IntN(64)&^3
+					m[25], m[26], m[27] = byte(n>>16), byte(n>>8), byte(n)
+				case 1: // the first AVP claims less than its own header
+					m[25], m[26], m[27] = 0, 0, byte(r.IntN(8))
+				case 2: // V bit set on a final AVP too short for a vendor field
+					m = append(m[:20], 0, 0, 0x23, 0x29, 0x80, 0, 0, 8)
+					m[1], m[2], m[3] = 0, 0, byte(len(m))
+				case 3: // garbage body of the declared size
+					for j := 20; j < len(m); j++ {
+						m[j] = byte(r.IntN(256))
+					}
+				}
+				kinds += fmt.Sprintf("%d", k)
+			}
+			msgs = append(msgs, m)
+			bad = append(bad, isBad)
+		}
+		c.Class("after-undecodable/kinds=%s", kinds)
+		var stream []byte
+		for _, m := range msgs {
+			stream = append(stream, m...)
+		}
+		cuts := randCuts(c, len(stream))
+		for pass, mk := range []func() io.Reader{
+			func() io.Reader { return memnet.NewFragReader(stream, cuts) },
+			func() io.Reader { return bufio.NewReader(memnet.NewFragReader(stream, cuts)) },
+		} {
+			rd := mk()
+			var got [][]byte
+			var last error
+			p, pan := guard(func() {
+				for k := 0; k < nm+2; k++ {
+					m, err := diam.ReadMessage(rd, ctx.Parser)
+					last = err
+					if err == io.EOF || err == io.ErrUnexpectedEOF {
+						return
+					}
+					if err != nil {
+						got = append(got, nil)
+						continue
+					}
+					b, e := m.Serialize()
+					if e != nil {
+						b = nil
+					}
+					got = append(got, b)
+				}
+			})
+			if pan {
+				c.Fail(ev.Sig{"op": "panic", "site": panicSite(p)}, stream, nil, "ReadMessage panicked: %s", p)
+				return
+			}
+			if len(got) != nm || last != io.EOF {
+				c.Fail(sig("count"), stream, nil, "pass %d: %d messages of sizes %v (undecodable: %v) in one stream: %d reads returned before the end, last error %v (want %d and io.EOF)", pass, nm, sizes(msgs), bad, len(got), last, nm)
+				return
+			}
+			for i := range msgs {
+				if bad[i] {
+					if got[i] == nil {
+						c.Event("undecodable_rejected", 1)
+					}
+					continue
+				}
+				if !bytes.Equal(got[i], msgs[i]) {
+					c.Fail(sig("following-message"), stream, nil, "pass %d: message %d of %v (undecodable: %v) was not returned as sent after an undecodable message earlier in the stream (got %d bytes, first difference at %d)", pass, i, sizes(msgs), bad, len(got[i]), firstDiff(got[i], msgs[i]))
+					return
+				}
+			}
+		}
+		c.Event("streams_checked", 1)
+		c.Event("messages_delivered", nm)
+	})
+
 	// 2a. a stream that goes on for long: 70 000 small messages (more than any 16-bit counter
 	//     holds) in one piece or cut every 1000 bytes
 	rec.Suite("very-long-stream", rec.N(2, 8), func(c *ev.Case) {
@@ -781,6 +873,76 @@ func TestC05(t *testing.T) {
 			return
 		}
 		c.Event("timeout_scenarios", 1)
+	})
+
+	// 4c'. the same server with CloseNotify requested by its handler (reads then go through the
+	//     copy routine) and handlers slower than the read timeout: fragments arrive while a
+	//     handler runs, and the transport hands some of them over together with a time-out (the
+	//     deadline passed while the handler ran; n > 0 with a net.Error that is a timeout, as the
+	//     io.Reader contract allows).  A deadline that expires while the handler runs is not an
+	//     error of the peer: every message sent is delivered, in order, made of its own bytes.
+	rec.Suite("closenotify-data-with-timeout", rec.N(300, 20000), func(c *ev.Case) {
+		r := c.R
+		nm := 2 + r.IntN(4)
+		var msgs [][]byte
+		var stream []byte
+		for k := 0; k < nm; k++ {
+			m := seqMsg(uint32(c.I*16+k+1), []int{12, 56, 100, 1028}[r.IntN(4)])
+			msgs = append(msgs, m)
+			stream = append(stream, m...)
+		}
+		marked := 0
+		var got [][]byte
+		var mu sync.Mutex
+		leak := runBubbleWD(t, rec, c, 60*time.Second, func() {
+			mc := memnet.NewConn()
+			ln := memnet.NewListener()
+			started := make(chan struct{}, 16)
+			srv := &diam.Server{Handler: diam.HandlerFunc(func(cn diam.Conn, m *diam.Message) {
+				cn.(diam.CloseNotifier).CloseNotify()
+				b, _ := m.Serialize()
+				mu.Lock()
+				got = append(got, b)
+				mu.Unlock()
+				started <- struct{}{}
+				time.Sleep(250 * time.Millisecond) // longer than the read timeout
+			}), Dict: ctx.Parser, ReadTimeout: 100 * time.Millisecond}
+			go srv.Serve(ln)
+			ln.Offer(mc)
+			mc.Feed(msgs[0])
+			<-started
+			// the first handler runs (and has asked for CloseNotify): the rest arrives now
+			time.Sleep(120 * time.Millisecond)
+			for off := len(msgs[0]); off < len(stream); {
+				end := min(off+7+r.IntN(200), len(stream))
+				if r.IntN(2) == 0 {
+					mc.FeedWithTimeout(stream[off:end])
+					marked++
+				} else {
+					mc.Feed(stream[off:end])
+				}
+				off = end
+			}
+			time.Sleep(time.Duration(nm) * 300 * time.Millisecond)
+			synctest.Wait()
+			mc.FeedEOF()
+			ln.Close()
+			time.Sleep(time.Second)
+			synctest.Wait()
+		})
+		if leak != "" && !c.Failed() {
+			c.Fail(ev.Sig{"op": "bubble-leak"}, nil, nil, "goroutines left blocked: %s", leak)
+			return
+		}
+		c.Class("closenotify-data-with-timeout/marked=%d", min(marked, 6))
+		mu.Lock()
+		defer mu.Unlock()
+		if d := cmpSeq(got, msgs); d != "" {
+			c.Fail(ev.Sig{"op": "sequence", "how": "closenotify-data-with-timeout"}, stream, nil, "read timeout 100 ms, handlers of 250 ms that asked for CloseNotify, %d of the fragments handed over together with a time-out while a handler ran: %s (sizes %v)", marked, d, sizes(msgs))
+			return
+		}
+		c.Event("timeout_scenarios", 1)
+		c.Event("messages_delivered", len(msgs))
 	})
 
 	// 4d. the transport is a multi-stream association (in-memory backend behind diam.SCTPConn):
